@@ -1851,8 +1851,23 @@ struct ClosureApplyFn {
 
 fn compile_go(goenv: &GlobalGoEnv, closure: &anf::ImmExpr) -> goast::Stmt {
     let closure_ty = imm_ty(closure);
-    let apply = find_closure_apply_fn(goenv, &closure_ty)
-        .expect("go statement closure must have an apply method");
+    let Some(apply) = find_closure_apply_fn(goenv, &closure_ty) else {
+        // a plain function value (`go worker` for a top-level `fn worker()`): call it directly
+        let tast::Ty::TFunc { ret_ty, .. } = &closure_ty else {
+            panic!(
+                "go statement expects a closure or a function, got {:?}",
+                closure_ty
+            );
+        };
+        let call = anf::CExpr::ECall {
+            func: closure.clone(),
+            args: vec![],
+            ty: (**ret_ty).clone(),
+        };
+        return goast::Stmt::Go {
+            call: compile_cexpr(goenv, &call),
+        };
+    };
 
     let apply_call = anf::CExpr::ECall {
         func: anf::ImmExpr::ImmVar {
